@@ -33,8 +33,18 @@ func (f *fieldDefined) EnterDocument(operation, definition *ast.Document) {
 	f.definition = definition
 }
 
+// validateTypeNameField reports a selection set on the __typename meta field (String! is a leaf type).
+func (f *fieldDefined) validateTypeNameField(ref int) {
+	if !f.operation.FieldHasSelections(ref) {
+		return
+	}
+	position := f.operation.SelectionSets[f.operation.Fields[ref].SelectionSet].LBrace
+	f.StopWithExternalErr(operationreport.ErrFieldSelectionOnLeaf(literal.TYPENAME, "String!", position))
+}
+
 func (f *fieldDefined) ValidateUnionField(ref int, enclosingTypeDefinition ast.Node) {
 	if bytes.Equal(f.operation.FieldNameBytes(ref), literal.TYPENAME) {
+		f.validateTypeNameField(ref)
 		return
 	}
 	fieldName := f.operation.FieldNameBytes(ref)
@@ -45,6 +55,7 @@ func (f *fieldDefined) ValidateUnionField(ref int, enclosingTypeDefinition ast.N
 func (f *fieldDefined) ValidateInterfaceOrObjectTypeField(ref int, enclosingTypeDefinition ast.Node) {
 	fieldName := f.operation.FieldNameBytes(ref)
 	if bytes.Equal(fieldName, literal.TYPENAME) {
+		f.validateTypeNameField(ref)
 		return
 	}
 	typeName := f.definition.NodeNameBytes(enclosingTypeDefinition)
@@ -89,7 +100,7 @@ func (f *fieldDefined) EnterField(ref int) {
 		f.ValidateInterfaceOrObjectTypeField(ref, f.EnclosingTypeDefinition)
 	default:
 		fieldName := f.operation.FieldNameBytes(ref)
-		typeName := f.operation.NodeNameBytes(f.EnclosingTypeDefinition)
+		typeName := f.definition.NodeNameBytes(f.EnclosingTypeDefinition)
 		f.StopWithInternalErr(fmt.Errorf("astvalidation/fieldDefined/EnterField: field: %s selection on type: %s unhandled", fieldName, typeName))
 	}
 }
